@@ -561,6 +561,7 @@ func (g *Gen) spec(seed uint64, index int) Spec {
 
 	// collide runs: a handful of constructor texts that share a hash bucket,
 	// parsed over and over by every task under a dense schedule
+	collideVers := false
 	collide := !wide && len(sp.Ecos) > 0 && p.chance(1, 6)
 	if collide {
 		e := p.n(len(sp.Ecos))
@@ -577,6 +578,25 @@ func (g *Gen) spec(seed uint64, index int) Spec {
 			hots[e].r = cs
 		}
 		wide = true // same constructor-heavy operation mix
+		// VERS too: a few range texts that share a hash bucket, used over and over
+		if p.chance(1, 3) && len(g.schemes) > 0 {
+			if vc := g.versColliders(p, p.rng(2, 3)); len(vc) >= 2 {
+				versPairs = versPairs[:0]
+				for _, vs := range vc {
+					sch := vs[5:]
+					if i := strings.IndexByte(sch, '/'); i >= 0 {
+						sch = sch[:i]
+					}
+					en := schemeEco[sch]
+					for k := 0; k < 3; k++ {
+						if g.class[en] != nil && len(g.class[en].versions) > 0 {
+							versPairs = append(versPairs, [2]string{vs, pickS(p, g.class[en].versions)})
+						}
+					}
+				}
+				collideVers = len(versPairs) > 0
+			}
+		}
 	}
 
 	// op mix (swarm): weights per kind, some kinds switched off per run
@@ -584,6 +604,9 @@ func (g *Gen) spec(seed uint64, index int) Spec {
 	base := []int{6, 6, 1, 1, 1, 4, 3, 3, 2}
 	if wide {
 		base = []int{1, 1, 0, 0, 0, 12, 6, 2, 0}
+	}
+	if collideVers {
+		base = []int{1, 1, 0, 0, 0, 4, 2, 14, 0}
 	}
 	if g.SoakVers {
 		base = []int{1, 1, 0, 0, 0, 1, 1, 30, 0}
